@@ -130,6 +130,10 @@ def ast_request(e, idx):
         return "(%s %s)" % (e[0], e[1])
     if e[0] == "skip":
         return "(skip (%s))" % " ".join(e[1])
+    if e[0] == "tag" and len(e) == 3:
+        # a node tag `#name = e` (cargo feature grammar-extras) is transparent for parsing and, with emit_tagged_node_reference off,
+        # for the rule accessors: the model sees the tagged expression
+        return ast_request(e[2], idx)
     parts = []
     for x in e[1:]:
         if isinstance(x, list):
